@@ -13,8 +13,8 @@ PROP = {
                   "last_key(i) <= separator(i) < first_key(i+1) and prefix-sum first ordinals (C15_block_index, C15_separator_between); streaming returns exactly the inserted pairs across flushes (C15_roundtrip); "
                   "decode_up_to_or_next (search in delta space with ok_bytes) is ordinal-or-successor of the sorted map (C15_block_search), and get / term_ord / term_ord_or_next through index + block agree with the sorted map (C15_lookups; the successor past the last key is u64::MAX in the code, len in the map, stated in the theorem); "
                   "Streamer::advance's handling of ge/gt/le/lt/unbounded, empty and inverted bounds is exactly the sub-map of the pairs it is given (C15_ranges); block bodies, u64-monotonic/void value codecs and the u32-framed block section round-trip; "
-                  "the k-way merge of sorted inputs emits the strictly sorted union of their keys, each once (C15_merge); after ANY accepted insert sequence a key <= the last accepted one panics, except in class F11 (C15_rejects_unordered, witness C15_rejects_unordered_refuted). "
-                  "_partial (modelled, executed against the implementation on every run, but without a theorem): which blocks file_slice_for_range selects (incl. limit) -- this is where F151 lives (C15_inverted_range_refuted); ord_to_term / the two-level binary search over first ordinals; prefix_range's upper bound; "
+                  "the k-way merge of sorted inputs emits the strictly sorted union of their keys, each once (C15_merge); the model follows the pinned code shape of the ordering assertion and of file_slice_for_range (flags SST_ORDER_CHECK_*, SST_RANGE_*; C15_code_shapes_known): under the pinned (repaired) shapes, after ANY accepted insert sequence a key <= the last accepted one panics with no exception (C15_rejects_unordered), the block selection never panics and an inverted range streams nothing (C15_ranges_never_panic, C15_inverted_range_empty); these proofs use ORDER_FIXED = true / RANGE_FIXED = true recomputed from the source, so reverting either fix breaks them while the spec cases report the failing input. The old shapes (model parameter false) keep their theorems: C15_rejects_unordered_old_shape (everything but class F11), witnesses C15_rejects_unordered_refuted (F11) and C15_inverted_range_refuted (F151). "
+                  "_partial (modelled, executed against the implementation on every run, but without a theorem): which blocks file_slice_for_range selects (incl. limit) beyond never panicking; ord_to_term / the two-level binary search over first ordinals; prefix_range's upper bound; "
                   "automaton-pruned block iteration; the merged VALUES and the old->new ordinal maps of the k-way merge (its key sequence is proved to be the strictly sorted union: C15_merge); the FST termdict and columnar dictionaries are checked at the spec layer only.",
     "level_note": "Trusted: Coq kernel + vm_compute; pin.py; the harness. tantivy-fst (block index: 'first separator >= key'), zstd (decompression oracle table taken from the real BlockReader), std BinaryHeap (merge = minimum over heads), "
                   "levenshtein/regex automata (acceptance oracle = the real automaton run over each key) are represented by their contracts. The bit-packed BlockAddrStore layout is not modelled (block addresses are a list). "
